@@ -99,11 +99,11 @@ package sqlite
 //@   serves C14
 //@   requires db != nil
 //@   writes ghost(lasttx, db), ghost(txcount, db), ghost(commits, db)
-//@   ensures[C14] g(commits, db) == old(g(commits, db)) + ite(isnil(err) && g(txcount, db) == old(g(txcount, db)) + 1, 1, 0)
+//@   ensures[C14] g(commits, db) == old(g(commits, db)) + ite(isnil(result) && g(txcount, db) == old(g(txcount, db)) + 1, 1, 0)
 //@   ensures[C14] g(txcount, db) == old(g(txcount, db)) || g(txcount, db) == old(g(txcount, db)) + 1
 //@   ensures[C14] g(txcount, db) == old(g(txcount, db)) ==> g(lasttx, db) == old(g(lasttx, db))
-//@   ensures[C14] (g(txcount, db) == old(g(txcount, db)) + 1 && isnil(err)) ==> g(txstate, g(lasttx, db)) == 1
-//@   ensures[C14] (g(txcount, db) == old(g(txcount, db)) + 1 && !isnil(err)) ==> g(txstate, g(lasttx, db)) == 2
+//@   ensures[C14] (g(txcount, db) == old(g(txcount, db)) + 1 && isnil(result)) ==> g(txstate, g(lasttx, db)) == 1
+//@   ensures[C14] (g(txcount, db) == old(g(txcount, db)) + 1 && !isnil(result)) ==> g(txstate, g(lasttx, db)) == 2
 //@   ensures[C14] (g(txcount, db) == old(g(txcount, db)) + 1 && g(txfailed, g(lasttx, db))) ==> g(txstate, g(lasttx, db)) == 2
 //@   loop 1
 //@     lwrites ghost(txfailed, tx)
